@@ -147,7 +147,10 @@ func (w *verifWorld) verifNewSpec(full bool) verifSpec {
 	var s verifSpec
 	s.limit = verifNondetInt64("limit")
 	verifAssume(verifAnd(s.limit >= 0, s.limit <= verifMaxBytes))
-	if (full && verifParam("opAff", 0) == 1) || (!full && verifParam("priorAff", 0) == 1) {
+	if !full && verifParam("priorAff", 0) == 2 {
+		// prior requests pinned to a single node each
+		s.affinity = NodeMask(1) << uint(verifChoice("affinity", w.n))
+	} else if (full && verifParam("opAff", 0) == 1) || (!full && verifParam("priorAff", 0) == 1) {
 		// reduced affinity space: single nodes and the whole machine
 		k := verifChoice("affinity", w.n+1)
 		if k == w.n {
